@@ -13,6 +13,12 @@ type Node = vclock.Node
 var NewNode = vclock.NewNode
 
 var (
+	Epoch    = real.Epoch
+	NodeBits = real.NodeBits
+	StepBits = real.StepBits
+)
+
+var (
 	ParseString = real.ParseString
 	ParseInt64  = real.ParseInt64
 	ParseBase2  = real.ParseBase2
